@@ -1,9 +1,6 @@
 """What MANIFEST.json claims per property (single source for tools/gen_manifest.py)."""
 
 NOT_APPLICABLE = {
-    'C06': "observational equivalence of sandboxed and plain execution quantifies over run-time values "
-           "(printed text, globals, exception lines) of every program; no dataflow/typestate/table argument bounds "
-           "them; a differential runtime harness is the right tool and is a different family (DESIGN.md section 7)",
     'C11': "completeness of a recursive backtracking tree matcher over all programs x derived patterns is an "
            "inductive property of the search; a static rule would be vacuous or a frozen copy of the algorithm; "
            "the structural guards it shares with C10 are decided there (DESIGN.md section 7)",
@@ -14,6 +11,24 @@ _NOTE = ("Trusted base: CPython 3.12 ast parser and the checker itself (validate
          "not decided in DESIGN.md. ")
 
 CLAIMS = {
+    'C06': {
+        'text': "PARTIAL, structural clauses only - observational equivalence of sandboxed and plain execution is NOT "
+                "decided (it quantifies over run-time values of every program; a differential harness is the right "
+                "tool and a different family). Decided are three necessary conditions whose truth is in the shape of "
+                "pedal's code, each by abstract execution: (R1) the text given to run() reaches compile() unmodified, in "
+                "'exec' mode under its own file name, and is executed in the sandbox's own namespace with __name__ == "
+                "'__main__'; (R2) call() marshals every argument faithfully - _make_temporary/_construct_call are run "
+                "over 31 argument values (floats incl. inf/nan/-0.0, complex, strings with quotes, nested containers, "
+                "range, frozenset, an instructor-side object) and each must be passed as a text that ast.literal_eval "
+                "turns back into an equal value of the same type, or as a temporary bound to the very object; (R3) the "
+                "value handed back is the object stored in the target.",
+        'note': _NOTE + "Not decided: everything else the statement says (printed text, globals, exception kind and "
+                        "line, return values for arbitrary programs). The claim exists because the marshalling clause "
+                        "has a finite, code-visible argument (and exposed a defect: call('f', float('inf'))).",
+        'technique': 'static analysis: abstract interpretation of _execute/run/_make_temporary/_construct_call/'
+                     '_handle_result with marker objects; literal round-trip oracle (ast.literal_eval) on the texts '
+                     'produced (ast only)',
+    },
     'C08': {
         'text': "Every rule instance is extracted from the current source and discharged or reported: the 27 "
                 "operator-table rows are compared with the class CPython's own parser assigns each symbol "
